@@ -2,6 +2,7 @@ package sim
 
 import (
 	"fmt"
+	"strconv"
 	"sync"
 	"testing/synctest"
 	"time"
@@ -139,8 +140,18 @@ func (s *Sched) CurName() string {
 //
 //go:norace
 func (s *Sched) alloc(parent *Task, fn func()) *Task {
+	// no library call that synchronises internally (fmt uses a sync.Pool) may run between
+	// raceOff and raceOn: its happens-before edges would be lost and reported as races
+	name := "m"
+	if parent != nil {
+		name = parent.Name + "." + strconv.Itoa(parent.nchild)
+		parent.nchild++
+	}
+	wake := make(chan struct{}, 1)
+	sname := "t:" + name
 	raceOff()
 	s.mu.Lock()
+	ch := s.Choices.Stream(sname) // pure computation, no internal synchronisation
 	if s.ntasks == MaxTasks {
 		s.mu.Unlock()
 		raceOn()
@@ -148,16 +159,11 @@ func (s *Sched) alloc(parent *Task, fn func()) *Task {
 	}
 	t := &s.tasks[s.ntasks]
 	t.Slot = s.ntasks
-	if parent == nil {
-		t.Name = "m"
-	} else {
-		t.Name = fmt.Sprintf("%s.%d", parent.Name, parent.nchild)
-		parent.nchild++
-	}
+	t.Name = name
 	t.state = tStarting
-	t.wake = make(chan struct{}, 1)
+	t.wake = wake
 	t.fn = fn
-	t.Ch = s.Choices.Stream("t:" + t.Name)
+	t.Ch = ch
 	s.ntasks++
 	s.mu.Unlock()
 	raceOn()
